@@ -551,14 +551,16 @@ class InterpolatableFunction(ABC):
             return helpers.derivative(
                 self._evaluateDirectly, x, n=order, epsilon=epsilon, scale=scale
             )
+        # NaN input is neither below nor above the table: it propagates as NaN
         if self._RETURN_VALUE_COUNT > 1:
-            res = np.empty(x.shape + (self._RETURN_VALUE_COUNT,))
+            res = np.full(x.shape + (self._RETURN_VALUE_COUNT,), np.nan)
         else:
-            res = np.empty(x.shape)
+            res = np.full(x.shape, np.nan)
         xLower = x < self._rangeMin
+        xUpper = x > self._rangeMax
         for mask, extrapolationType in (
             (xLower, self.extrapolationTypeLower),
-            (~xLower, self.extrapolationTypeUpper),
+            (xUpper, self.extrapolationTypeUpper),
         ):
             if not np.any(mask):
                 continue
